@@ -124,13 +124,13 @@ Section Html.
         match element_of z with
         | None => HPanic                                    (* .unwrap() *)
         | Some element_name =>
-            if N.eqb ns (n_xml_ns nm)
+            if (N.eqb p (n_xml_prefix nm) && N.eqb ns (n_xml_ns nm))
                || (N.eqb p ep && negb (N.eqb (n_ns_of_name nm element_name) ns))
                || (negb (N.eqb p ep) && must_be_unprefixed ns
                    && negb (existsb (fun a => N.eqb (n_ns_of_name nm (fst a)) ns) (attr_pairs z)))
             then HOk (st, tok false [])
-            else if N.eqb p ep then HOk (st, tok true (s_xmlns ++ [61; 34] ++ n_ns_str nm ns ++ [34]))
-            else HOk (st, tok true (s_xmlns ++ [58] ++ n_prefix_str nm p ++ [61; 34] ++ n_ns_str nm ns ++ [34]))
+            else if N.eqb p ep then HOk (st, tok true (s_xmlns ++ [61; 34] ++ serialize_attribute (n_ns_str nm ns) ++ [34]))
+            else HOk (st, tok true (s_xmlns ++ [58] ++ n_prefix_str nm p ++ [61; 34] ++ serialize_attribute (n_ns_str nm ns) ++ [34]))
         end
     | OAttribute name v =>
         match attribute_fullname nm (hs_stack st) name with
